@@ -194,18 +194,11 @@ class ClosedConstraintComponent(ConstraintComponent):
             filter_props_list = []
             bgp_list = []
             init_bindings = {}
-            if len(self.ignored_props) > 0:
-                filter_template = "("
-                if len(self.ignored_props) == 1:
-                    filter_template += f"{{P}} != {next(iter(self.ignored_props)).n3()}"
-                else:
-                    this_filter_parts = []
-                    for ig in self.ignored_props:
-                        this_filter_parts.append(f"({{P}} != {ig.n3()})")
-                    filter_template += " && ".join(this_filter_parts)
-                filter_template += ")"
-            else:
-                filter_template = ""
+            # No FILTER on the ignored properties here: every row of the result combines the triples of all
+            # value nodes, so filtering a row because of one value node would also drop the triples of the
+            # others (and an unbound ?p of a value node without triples fails any comparison). The ignored
+            # properties are skipped below, when the rows are read.
+            filter_template = ""
             for i, f in enumerate(focus_value_nodes.keys()):
                 for j, v in enumerate(focus_value_nodes[f]):
                     select_vars_string += f"?p{i}_{j} ?o{i}_{j} "
